@@ -183,7 +183,7 @@ def handle (req : Json) : Json :=
       runOps ops.toList
     | "check" =>
       let g ← parseNGraph (← req.getObjVal? "g")
-      return Json.mkObj [("accept", checkStructural g)]
+      return Json.mkObj [("accept", checkStructural g), ("wf", wfB g)]
     | "compile" =>
       let t ← parseEGraph (← req.getObjVal? "tree")
       match compile t with
